@@ -341,7 +341,11 @@ func genQueryLocks(repo string) (string, error) {
 	if fin == nil {
 		return "", fmt.Errorf("(QueryResponse).Finished not found")
 	}
-	_, flf, fdf := lockPrefix(fin, recvName(fin))
+	// Finished: closeLock taken first and held over the whole body (deferred Unlock, or the explicit
+	// `Unlock(); return local` form, see methodLockShape)
+	fmu, flf, _ := lockPrefix(fin, recvName(fin))
+	fsh := methodLockShape(fin)
+	fdf := flf && fmu == recvName(fin)+".closeLock" && fsh.lockCall == "Lock" && fsh.deferred && !fsh.earlyUnlock
 	_, sf, err := parseFile(repo + "/serf/serf.go")
 	if err != nil {
 		return "", err
